@@ -56,7 +56,7 @@ CLAIMED.update({
             "components or user total, less ITC, incentives, grants plus fees; component overrides used exactly; "
             "Cwell = per-well costs x wells (+laterals, 1.05); Coam = parts or user total + redrilling + fees - relief; "
             "chiller not double counted; per-well cost helper proved for all 17 correlations. Quick tier: 19 "
-            "representative end-use x plant configurations, thorough tier: all 65 the reader accepts (district heating with a non-heat end-use makes Model.read_parameters raise).",
+            "representative end-use x plant configurations, thorough tier: all 51 runnable ones (a direct-use plant type with a non-heat end-use does not run on the real program).",
             TRUSTED + "Snapshots of the real classes after Model.read_parameters (T5); surface-plant and pump cost "
             "correlations are 'the components' and are not checked against anything.", "DESIGN.md section 4 C03"),
 })
@@ -119,10 +119,12 @@ CLAIMED.update({
             "(defect found and fixed, see known_findings.json). "
             "WellBores.Calculate (6 configurations): the series keep their "
             "length, and with a drawdown limit the produced temperature never falls below limit x initial temperature "
-            "(redrilling tiles the series - lemma tiling_covers_the_series).",
-            TRUSTED + "Single-fracture, multiple-parallel-fractures, linear-heat-sweep, SBT, SUTRA and TOUGH2 histories "
-            "(start-at-BHT, never above BHT) are not under contract - only the percentage-drawdown model is; Ramey's "
-            "wellbore heat loss carries a weak contract; monotonicity is claimed only for Trock >= Tinj (complement "
+            "(redrilling tiles the series - lemma tiling_covers_the_series). "
+            "SFReservoir.Calculate (single fracture, model 3): the history starts at BHT, never exceeds it and never "
+            "rises (erf / sqrt uninterpreted with the library facts 'increasing' and their ranges, A3).",
+            TRUSTED + "Multiple-parallel-fractures and linear-heat-sweep histories (numerical inverse Laplace transform: "
+            "start-at-BHT only would be claimable), SBT, SUTRA and TOUGH2 are not under contract; Ramey's wellbore heat "
+            "loss has a verified length contract only; monotonicity is claimed only for Trock >= Tinj (complement "
             "recorded as finding F3 in DESIGN.md).", "DESIGN.md section 4 C05"),
 })
 
